@@ -32,36 +32,44 @@ fn cached(kind: u64, lay: &[(u64, u64)]) -> std::rc::Rc<Built> {
     })
 }
 
-fn walk<M: GuestMemory>(m: &M, regs: &[*const u8], count: u64, addr: u64, script: &[(u64, u64)]) -> Vec<Tok> {
-    let mut log: Vec<u64> = Vec::new();
-    let mut pos = 0usize;
-    let r = util::catch(std::panic::AssertUnwindSafe(|| {
-        m.try_access(count as usize, GuestAddress(addr), |total, len, start, region| {
-            let (kind, val) = if pos < script.len() { script[pos] } else { (1, 0) };
-            pos += 1;
-            let p = region as *const M::R as *const u8;
-            let idx = regs.iter().position(|&q| q == p).map(|i| i as u64).unwrap_or(u64::MAX);
-            let ans: Result<usize, GmError> = match kind {
-                0 => Ok(val as usize),
-                1 => Ok(len),
-                2 => Ok((len as u64).wrapping_add(val) as usize),
-                3 => Ok(len - (val.min(len as u64) as usize)),
-                _ => Err(GmError::HostAddressNotAvailable),
-            };
-            let (rk, rv) = match &ans {
-                Ok(x) => (0u64, *x as u64),
-                Err(e) => (1u64, err_class(e)),
-            };
-            log.extend([total as u64, len as u64, start.raw_value(), idx, rk, rv]);
-            ans
-        })
-    }));
-    match r {
-        Some(Ok(x)) => vec![Tok::of_u64s(&log), n(1u64), n(x as u64)],
-        Some(Err(e)) => vec![Tok::of_u64s(&log), n(2u64), n(err_class(&e))],
-        None => vec![Tok::of_u64s(&[]), n(3u64), n(0u64)],
-    }
+// instantiated generically (trait route: `<M as GuestMemory>::try_access`) and for the concrete GuestMemoryMmap<()>
+// (method-call route: an inherent `try_access` would shadow the trait method there)
+macro_rules! def_walk {
+    ($name:ident, [$($g:tt)*], $M:ty, $R:ty) => {
+        fn $name<$($g)*>(m: &$M, regs: &[*const u8], count: u64, addr: u64, script: &[(u64, u64)]) -> Vec<Tok> {
+            let mut log: Vec<u64> = Vec::new();
+            let mut pos = 0usize;
+            let r = util::catch(std::panic::AssertUnwindSafe(|| {
+                m.try_access(count as usize, GuestAddress(addr), |total, len, start, region| {
+                    let (kind, val) = if pos < script.len() { script[pos] } else { (1, 0) };
+                    pos += 1;
+                    let p = region as *const $R as *const u8;
+                    let idx = regs.iter().position(|&q| q == p).map(|i| i as u64).unwrap_or(u64::MAX);
+                    let ans: Result<usize, GmError> = match kind {
+                        0 => Ok(val as usize),
+                        1 => Ok(len),
+                        2 => Ok((len as u64).wrapping_add(val) as usize),
+                        3 => Ok(len - (val.min(len as u64) as usize)),
+                        _ => Err(GmError::HostAddressNotAvailable),
+                    };
+                    let (rk, rv) = match &ans {
+                        Ok(x) => (0u64, *x as u64),
+                        Err(e) => (1u64, err_class(e)),
+                    };
+                    log.extend([total as u64, len as u64, start.raw_value(), idx, rk, rv]);
+                    ans
+                })
+            }));
+            match r {
+                Some(Ok(x)) => vec![Tok::of_u64s(&log), n(1u64), n(x as u64)],
+                Some(Err(e)) => vec![Tok::of_u64s(&log), n(2u64), n(err_class(&e))],
+                None => vec![Tok::of_u64s(&[]), n(3u64), n(0u64)],
+            }
+        }
+    };
 }
+def_walk!(walk, [M: GuestMemory], M, M::R);
+def_walk!(walk_mmap, [], vm_memory::GuestMemoryMmap<()>, vm_memory::GuestRegionMmap<()>);
 
 fn exec(case: &[Tok]) -> Vec<Tok> {
     let kind = case[0].u();
@@ -71,7 +79,15 @@ fn exec(case: &[Tok]) -> Vec<Tok> {
     let script: Vec<(u64, u64)> = case[6].l().iter().zip(case[7].l().iter()).map(|(k, v)| (*k as u64, *v as u64)).collect();
     let b = cached(kind, &lay);
     match &b.mem {
-        Mem::Mmap(m, _) => walk(m, &b.regs, count, addr, &script),
+        Mem::Mmap(m, _) => {
+            let t = walk(m, &b.regs, count, addr, &script);
+            let c = walk_mmap(m, &b.regs, count, addr, &script);
+            if t != c {
+                // kind 0xa (accepted by neither model nor checker): the trait route's log; trait k + 16 * concrete k
+                return vec![t[0].clone(), n(10u64), n(t[1].u() + 16 * c[1].u())];
+            }
+            t
+        }
         Mem::Mock(m) => walk(m, &b.regs, count, addr, &script),
     }
 }
